@@ -515,6 +515,9 @@ func runC07(c *fw.Ctx) {
 	}
 	// (4) blocking builtins under asynchronous cancel
 	blocking := []string{"(sleep 60000)", "(sleep 9000)", "(try (sleep 9000) (catch e (sleep 9000)))", "(do (sleep 9000) :slept)",
+		// macros whose expansion is a quoted (read) form calling themselves or each other: expansion never ends
+		"(do (defmacro spin-quoted (fn () (quote (spin-quoted)))) (spin-quoted))",
+		"(do (defmacro ping-q (fn (x) (quote (pong-q 1)))) (defmacro pong-q (fn (x) (quote (ping-q 2)))) (def run-pq (fn () (try (ping-q 0) (catch e (ping-q 0))))) (run-pq))",
 		// tens of thousands of pending non-tail calls when the context ends: unwinding them is part of the bound
 		"(do (def deep-wait (fn (n) (if (< n 1) (sleep 60000) (+ 1 (deep-wait (- n 1)))))) (deep-wait 40000))",
 		"(do (def deep-spin (fn (n) (if (< n 1) (tail-loop 0) (+ 1 (deep-spin (- n 1)))))) (deep-spin 40000))", "@(future (sleep 60000))", "@(future (tail-loop 0))", "(try (sleep 60000) (catch e (sleep 60000)))", "(try @(future (sleep 60000)) (finally (sleep 60000)))", "(map (fn (x) (sleep 60000)) [1 2])", "(swap! (atom 0) (fn (n) (sleep 60000)))",
